@@ -1102,3 +1102,54 @@ Example render_parses_nonvacuous :
   view_ok demo_view = true /\ known_class demo_view = false /\
   parse_fragment (to_html demo_view) = Some (tree_of demo_view).
 Proof. repeat split; vm_compute; reflexivity. Qed.
+
+(** * document title and meta content (leptos_meta) *)
+Definition title_nodes (t : bytes) : list node := [NEl title_name [] (text_nodes (norm_attr t))].
+
+(** the <title> element injected into <head> parses to a title element whose text is exactly
+    the title string, whatever it contains *)
+Lemma title_parses t : parse_fragment (title_html t) = Some (title_nodes t).
+Proof.
+  destruct t as [|c s]; [vm_compute; reflexivity|].
+  assert (E : title_html (c :: s) = to_html (VEl Title [] [VText (c :: s)])).
+  { unfold to_html. rewrite render_el. cbn [fst is_void escape_children render_list render leaf_text].
+    unfold title_html. cbn [tag_name app]. now rewrite app_nil_r. }
+  rewrite E. rewrite render_parses_except_known by reflexivity.
+  unfold tree_of. rewrite tree_el. reflexivity.
+Qed.
+
+Definition meta_name : bytes := [109; 101; 116; 97].
+Definition name_attr : bytes := [110; 97; 109; 101].
+Definition content_attr : bytes := [99; 111; 110; 116; 101; 110; 116].
+
+Lemma meta_tokens n c rest :
+  markup_tokens (60 :: meta_name ++ attr_html name_attr n ++ attr_html content_attr c ++ 62 :: rest)
+  = Some ([TStart meta_name [(name_attr, norm_attr n); (content_attr, norm_attr c)]], rest).
+Proof.
+  set (X := attr_html name_attr n ++ attr_html content_attr c ++ 62 :: rest).
+  assert (HX : exists r, X = 32 :: r) by (eexists; reflexivity). destruct HX as [r EX].
+  assert (Hn : scan_tag_name (meta_name ++ X) = (meta_name, X)).
+  { rewrite EX. apply scan_tag_name_lower; [repeat constructor | reflexivity]. }
+  assert (Hs : scan_attrs AGap [] X = Some ([(name_attr, norm_attr n); (content_attr, norm_attr c)], rest)).
+  { subst X. change AGap with (state_of None).
+    rewrite scan_str_attr by reflexivity. change AGap with (state_of None).
+    rewrite scan_str_attr by reflexivity. change AGap with (state_of None).
+    rewrite scan_close. reflexivity. }
+  unfold markup_tokens. cbn [meta_name app] in *. rewrite Hn, Hs. reflexivity.
+Qed.
+
+(** the <meta name=.. content=..> element parses to one void element with exactly these two
+    attribute values *)
+Lemma meta_parses n c :
+  parse_fragment (meta_html n c)
+  = Some [NEl meta_name [(name_attr, norm_attr n); (content_attr, norm_attr c)] []].
+Proof.
+  unfold parse_fragment.
+  assert (HT : Toks (meta_html n c) [TStart meta_name [(name_attr, norm_attr n); (content_attr, norm_attr c)]]).
+  { eapply Toks_step1; [discriminate | | | apply Toks_nil].
+    - assert (E : meta_html n c = 60 :: meta_name ++ attr_html name_attr n ++ attr_html content_attr c ++ 62 :: [])
+        by reflexivity.
+      rewrite E. rewrite next_tokens_markup by reflexivity. apply meta_tokens.
+    - unfold meta_html. cbn [app length]. lia. }
+  rewrite (Toks_tokenize _ _ HT _ (le_n _)). reflexivity.
+Qed.
